@@ -1,3 +1,4 @@
+import QF.Props.Tie
 import QF.Core.GrouperMain
 /-!
 # C04 — GroupBy partitions the rows by key
@@ -21,5 +22,13 @@ theorem groupBy_partition (hash : Nat → Nat) (eqv : Nat → Nat → Bool) (kr 
       (∀ j, j ∈ ix → ∃ g, g ∈ gs ∧ j ∈ g) ∧
       ∀ g1 g2, g1 ∈ gs → g2 ∈ gs → g1 ≠ g2 → ∀ a, a ∈ g1 → ∀ b, b ∈ g2 → a ≠ b ∧ eqv a b = false :=
   G.groupBy_partition hash eqv kr ix hnd
+
+/-- T1: the functions this property's mirror model follows have today the source text the model was written against. -/
+theorem tie : Tie.sameAll ["grouper.maxLoadFactor", "grouper.growthFactor", "grouper.calculateInitialSizeExp", "grouper.insertEntry", "grouper.grow", "grouper.groupIndex", "grouper.GroupBy", "grouper.equals", "grouper.table.hash", "grouper.newTable", "icolumn.Hash", "fcolumn.Hash", "bcolumn.Hash", "scolumn.Hash", "ecolumn.Hash", "qframe.QFrame.GroupBy", "qframe.Aggregate", "qframe.Grouper.QFrames"] = true := by decide
+
+/-- The load factor and growth factor of the table in today's source: the probe terminates because the table is
+never full (`maxLoadFactor < 1`) and growth doubles the size. -/
+theorem gen_table_constants :
+    Gen.consts.lookup "grouper.maxLoadFactor" = some "0.5" ∧ Gen.consts.lookup "grouper.growthFactor" = some "2" := by decide
 
 end QF.Props.C04
